@@ -799,7 +799,12 @@ def judge_refusal(case: dict[str, Any]) -> list[tuple[str, str]]:
             return [(key, f"{cls.__name__} accepted by a {case['field']} field, returned {res} ({case})")]
         full = [mpf(3) / 2, mpf(1) / 2, mpf(2) / 3][:case["len"]]
         want = f_mp(expr, _pad(full))
-        if not close(lib_num(res), want, mpf(10)):
+        try:
+            got_num = lib_num(res)
+        except Undefined as exc:
+            return [(f"field-apply:{case['field']}", f"field at own-kind point ({case['len']} coordinates given) returned {res}, "
+                f"which is not a number ({exc}); expected {want}")]
+        if not close(got_num, want, mpf(10)):
             return [(f"field-apply:{case['field']}", f"field at own-kind point returned {res}, expected {want}")]
         return []
     a, b = case["from"], case["to"]
